@@ -355,6 +355,9 @@ pub mod stats;
 /// Traits that provide ways to be generic over `Bump(Scope)`s.
 pub mod traits;
 mod without_dealloc;
+#[cfg(all(bump_scope_verif, feature = "std"))]
+#[doc(hidden)]
+pub mod verif_hooks;
 
 pub use bump::Bump;
 pub use bump_box::BumpBox;
